@@ -32,6 +32,9 @@ NoFile == "NOFILE"
 (*   star    : `from .mod import *`         imp : `from .mod import name`  *)
 (*   plugins : `pytest_plugins = ["mod"]`   helper : plain `def name()`    *)
 (*   pmark   : `pytestmark = pytest.mark.usefixtures(marks..)`             *)
+(*   testb   : a test whose BODY uses names (`ind` field, as call targets)  *)
+(*             without declaring them: material of the undeclared-fixture   *)
+(*             scan (its findings are part of the index state)             *)
 (***************************************************************************)
 Item(k, name, deps, scope, autouse, mod, marks, cmarks, ind) ==
     [k |-> k, name |-> name, deps |-> deps, scope |-> scope, autouse |-> autouse,
@@ -40,6 +43,7 @@ Def(n, deps, sc, au) == Item("def", n, deps, sc, au, "-", <<>>, <<>>, <<>>)
 PlainDef(n, deps)    == Def(n, deps, 0, FALSE)
 Test(n, params)      == Item("test", n, params, 0, FALSE, "-", <<>>, <<>>, <<>>)
 TestM(n, params, marks, cmarks, ind) == Item("test", n, params, 0, FALSE, "-", marks, cmarks, ind)
+TestB(n, params, body) == Item("testb", n, params, 0, FALSE, "-", <<>>, <<>>, body)
 Star(m)     == Item("star", "-", <<>>, 0, FALSE, m, <<>>, <<>>, <<>>)
 Imp(m, n)   == Item("imp", n, <<>>, 0, FALSE, m, <<>>, <<>>, <<>>)
 \* `from .mod import orig as alias`: name = alias, marks = <<orig>>
@@ -85,6 +89,7 @@ AllUsages(ws) ==
                                           \cup { UseId(f, i, "m", j) : j \in 1..Len(it.marks) }
                                           \cup { UseId(f, i, "c", j) : j \in 1..Len(it.cmarks) }
                                           \cup { UseId(f, i, "i", j) : j \in 1..Len(it.ind) }
+                      [] it.k = "testb" -> { UseId(f, i, "p", j) : j \in 1..Len(it.deps) }
                       [] it.k = "pmark" -> { UseId(f, i, "pm", j) : j \in 1..Len(it.marks) }
                       [] OTHER -> {}
                   : i \in ItemIdx(ws, f) }
